@@ -21,7 +21,7 @@ from . import build, project
 from .core import MachineryError, Part, merge_worker_outputs, parallel_replay
 from .fam_iter import counting_class, fingerprint
 from .fam_multi import collect_nodes, engines, sql_mat_after_xfer
-from .fam_sql import bag, db, load_table
+from .fam_sql import bag, db, load_table, nested_compound
 from .procs import make_processor
 from .tlc import run_tlc
 
@@ -179,6 +179,13 @@ def replay_state(st: dict, out: dict) -> None:
                 if type(exc).__name__ == "EngineError" and "Cannot persist materialization" in str(exc) and kf8:
                     known = True
                     break
+                if type(exc).__name__ == "RelationalAlgebraError" and "will not preserve row order" in str(exc) and kf8:
+                    # open finding F16: same matcher as F8 (SQL materialization over a rebuilt upstream), own signature
+                    out["known"]["F16"] = out["known"].get("F16", 0) + 1
+                    return
+                if 'near "(": syntax error' in str(exc) and nested_compound(real_tree):
+                    cnt["sqlite_nested_compound_skipped"] = cnt.get("sqlite_nested_compound_skipped", 0) + 1
+                    return
                 V(["C07", "C10"], f"{a['a']} raised {type(exc).__name__}: {str(exc)[:300]}", step=i,
                   hook_failures=[e for e in proc.log if e["error"]][:2])
                 return
@@ -205,6 +212,9 @@ def replay_state(st: dict, out: dict) -> None:
                     if type(exc).__name__ == "EngineError" and "Cannot persist materialization" in str(exc) and kf8:
                         known = True
                         break
+                    if 'near "(": syntax error' in str(exc) and nested_compound(project.tree(target_out)):
+                        cnt["sqlite_nested_compound_skipped"] = cnt.get("sqlite_nested_compound_skipped", 0) + 1
+                        return
                     V(["C07", "C08"], f"executing the processed tree raised {type(exc).__name__}: {str(exc)[:300]}", step=i)
                     return
             # ---- invariants of the input tree after every step
